@@ -44,4 +44,40 @@ theorem plurality_polling_risk_limit (data : String → String → CVR → ℚ)
   · rw [hdata, ht]
     exact plurality_null contest w l B hwrong
 
+/-! ### super-majority -/
+
+/-- a reported winner whose valid votes do not exceed the share `f` of the valid votes makes the
+super-majority assertion's data average at most 1/2 -/
+theorem supermajority_null (contest w : String) (cands : List String) (f : ℚ) (hf0 : 0 < f) (B : List CVR)
+    (hwrong : (C02.wvalid contest cands w B : ℚ) ≤ f * (C02.valid contest cands B : ℚ)) :
+    (B.map (supermajority contest w cands f)).sum ≤ (B.length : ℚ) * (1 / 2) := by
+  rw [C02.sum_supermajority]
+  have h2f : 0 < 2 * f := by linarith
+  have : (C02.wvalid contest cands w B : ℚ) / (2 * f) ≤ (C02.valid contest cands B : ℚ) / 2 := by
+    rw [div_le_iff₀ h2f]
+    linarith
+  linarith
+
+/-- **Risk limit of a ballot-polling audit of a super-majority contest** (`0 < f < 1`, test bound
+`u = 1/(2f)`): if the reported winner's valid votes are at most the share `f` of the valid votes, the audit is
+ever reported complete with probability at most the contest's risk limit. -/
+theorem supermajority_polling_risk_limit (data : String → String → CVR → ℚ)
+    (T : String → String → SeqTest) (s : State) (c : Contest) (hc : c ∈ s) (a : Assertion)
+    (ha : a ∈ c.assertions) (B : List CVR) (contest w : String) (cands : List String) (f : ℚ)
+    (hf0 : 0 < f) (hf1 : f < 1)
+    (hdata : data c.id a.name = supermajority contest w cands f)
+    (sqrtF : ℚ → ℚ) (cfg : NM.Cfg) (test : NM.Test)
+    (hN : cfg.N = some B.length) (ht : cfg.t = 1 / 2) (hu : cfg.u = superUpper f)
+    (hT : T c.id a.name = NM.run sqrtF cfg test)
+    (hdoc : C01.DocumentedFinite sqrtF cfg test)
+    (hr0 : 0 < c.riskLimit) (hr1 : c.riskLimit < 1)
+    (hwrong : (C02.wvalid contest cands w B : ℚ) ≤ f * (C02.valid contest cands B : ℚ)) :
+    hitG (auditComplete data T s) B.length B [] ≤ c.riskLimit := by
+  apply audit_risk_limit_run data T s c hc a ha B sqrtF cfg test hN hT hdoc hr0 hr1
+  · intro x _
+    rw [hdata, hu]
+    exact C02.assort_range_super contest w cands f hf0 hf1 x
+  · rw [hdata, ht]
+    exact supermajority_null contest w cands f hf0 B hwrong
+
 end Shangrla.RiskLimit
